@@ -372,6 +372,17 @@ func runGenKey(in M) (M, M) {
 	// only then looks at the private key - the two results must not share memory
 	if err == nil && out["panic"] == "" {
 		out["panic"] = vCatch(func() {
+			// an append to one result writes into its spare capacity: that must not reach the other result
+			pubKeep, privKeep := append([]byte{}, pub...), append([]byte{}, priv...)
+			for x, i := []byte(priv)[:cap(priv)], len(priv); i < len(x); i++ {
+				x[i] ^= 0xff
+			}
+			for x, i := []byte(pub)[:cap(pub)], len(pub); i < len(x); i++ {
+				x[i] ^= 0xff
+			}
+			if !bytes.Equal(pub, pubKeep) || !bytes.Equal(priv, privKeep) {
+				panic("verif: appending to one of the keys returned by GenerateKey changed the other one (results share memory)")
+			}
 			for i := range pub {
 				pub[i] ^= 0xff
 			}
@@ -479,6 +490,78 @@ func runSign(in M) (M, M) {
 	return out, f
 }
 
+// runSignPar: Sign / NewKeyFromSeed / Verify called by several goroutines at the same time, each with its own key and
+// messages of its own lengths; every answer is compared with crypto/ed25519 (computed beforehand, one by one).
+func runSignPar(in M) M {
+	rr := rand.New(rand.NewSource(int64(vIntOf(in["seed"]))))
+	const K = 8
+	type job struct {
+		seed []byte
+		msgs [][]byte
+		sigs [][]byte
+		pub  []byte
+	}
+	jobs := make([]job, K)
+	for g := range jobs {
+		sd := make([]byte, 32)
+		rr.Read(sd)
+		sp := stded.NewKeyFromSeed(sd)
+		j := job{seed: sd, pub: []byte(sp.Public().(stded.PublicKey))}
+		for _, l := range []int{0, 1 + rr.Intn(64), 111, 200 + rr.Intn(2000)} {
+			m := make([]byte, l)
+			rr.Read(m)
+			j.msgs, j.sigs = append(j.msgs, m), append(j.sigs, stded.Sign(sp, m))
+		}
+		jobs[g] = j
+	}
+	msg := ""
+	var mu sync.Mutex
+	fail := func(s string) {
+		mu.Lock()
+		if msg == "" {
+			msg = s
+		}
+		mu.Unlock()
+	}
+	p := vCatch(func() {
+		var wg sync.WaitGroup
+		start := make(chan struct{})
+		deadline := time.Now().Add(time.Duration(vEnvInt("VERIF_PAR_MS", 1200)) * time.Millisecond)
+		for g := 0; g < K; g++ {
+			wg.Add(1)
+			go func(j job) {
+				defer wg.Done()
+				defer func() {
+					if r := recover(); r != nil {
+						fail(fmt.Sprint("verif: panic in a Sign / Verify call made concurrently with other calls: ", r))
+					}
+				}()
+				<-start
+				for rep := 0; rep < 4 || time.Now().Before(deadline); rep++ {
+					priv := NewKeyFromSeed(j.seed)
+					for i, m := range j.msgs {
+						sig := Sign(priv, m)
+						if !bytes.Equal(sig, j.sigs[i]) {
+							fail("verif: a signature made concurrently with other Sign calls differs from crypto/ed25519")
+							return
+						}
+						if !bytes.Equal(priv.Public().(PublicKey), j.pub) || !Verify(PublicKey(j.pub), m, sig) {
+							fail("verif: public key / verification of the own signature differs when called concurrently with other calls")
+							return
+						}
+					}
+				}
+			}(jobs[g])
+		}
+		close(start)
+		wg.Wait()
+	})
+	if p == "" {
+		p = msg
+	}
+	return M{"panic": p}
+}
+
 func TestVerifDriver(t *testing.T) {
 	rec := vOpen()
 	defer rec.close()
@@ -497,6 +580,8 @@ func TestVerifDriver(t *testing.T) {
 			out, facts = runVerify(in)
 		} else if op == "ed.GenerateKey" {
 			out, facts = runGenKey(in)
+		} else if op == "ed.SignPar" {
+			out, facts = runSignPar(in), M{}
 		} else {
 			out, facts = runSign(in)
 		}
@@ -664,6 +749,9 @@ func TestVerifDriver(t *testing.T) {
 			r.Read(seed)
 			emit("ed.GenerateKey", M{"seed": vInts(seed), "pattern": pat})
 		}
+	}
+	if vEnvInt("VERIF_PAR_MS", 1200) > 0 {
+		defer emit("ed.SignPar", M{"seed": r.Intn(1 << 30)})
 	}
 	// reuse of one key buffer for different keys (aliasing hazards)
 	buf := make([]byte, 32)
